@@ -347,6 +347,10 @@ class ControlTheory(Theory):
                 n = fresh("strlen", I)
                 st.assume(n >= 0)
                 return [(st, IntV(n))]
+            if isinstance(v, (DictV, SetV)):
+                return [(st, IntV(v.card))]
+            if isinstance(v, KwV):
+                return [(st, IntV(len(v.d)))]
         if name in self.hooks:
             return self.hooks[name](st, fr, pos, kws, node)
         raise Unsupported(f"builtin {name}()")
